@@ -557,6 +557,77 @@ Proof.
     split; [exact Hsb|]. split; [left; exact Hch|done].
 Qed.
 
+(** ** Forming, renewing, refreshing: the returned contract is the signed contract *)
+Definition form_ok (hk rk : key) (mine : view croot) (my_rest : N) (funded : bool) (host_cost : N)
+    (r1 : option N) (r3 : option form_final) : Prop :=
+  funded = true ∧ (∃ sum, r1 = Some sum ∧ host_cost ≤ sum)
+  ∧ ∃ f co, r3 = Some f ∧ ff_nset f ≠ 0 ∧ ff_contracts f = [co] ∧ ff_rest f = my_rest
+      ∧ co_body co = (hk, rk, mine) ∧ co_hsig co = Sig hk (MRev hk rk mine).
+
+Lemma form_inv t hk rk mine my_rest funded host_cost cost r1 r3 res :
+  client_form t hk rk mine my_rest funded host_cost cost r1 r3 = Ok res →
+  form_ok hk rk mine my_rest funded host_cost r1 r3
+  ∧ res = mk_contract_result hk rk mine (Sig rk (MRev hk rk mine)) (Sig hk (MRev hk rk mine)) cost.
+Proof.
+  unfold client_form, form_decide. intros H.
+  destruct r3 as [f|]; destruct r1 as [sum|]; simpl in H; peel; simpl in *; try discriminate.
+  boolf. unfold verify_sig in *. boolf. simplify_eq.
+  destruct (ff_contracts f) as [|co [|? ?]] eqn:Hc; simpl in *; try discriminate.
+  simplify_eq.
+  match goal with H : co_hsig co = _ |- _ => rewrite H end.
+  split; [|done]. unfold form_ok. repeat split; try done.
+  - exists sum. split; [done|lia].
+  - exists f, co. repeat split; try done.
+Qed.
+
+Definition renew_ok (c : contract) (mine : view croot) (my_rest : N) (funded : bool) (host_cost : N)
+    (r1 : option N) (r3 : option renew_final) (nc : contract_obj) : Prop :=
+  funded = true ∧ (∃ sum, r1 = Some sum ∧ host_cost ≤ sum)
+  ∧ ∃ f rest, r3 = Some f ∧ rf_nset f ≠ 0
+      ∧ rf_resolutions f = [ResRenewal nc rest (Sig (c_hk c) (MRenewal (c_hk c) (c_rk c) mine my_rest))]
+      ∧ co_hsig nc = Sig (c_hk c) (MRev (c_hk c) (c_rk c) mine).
+
+Lemma renew_inv t c mine my_rest funded host_cost cost r1 r3 res :
+  client_renew t c mine my_rest funded host_cost cost r1 r3 = Ok res →
+  (∃ nc, renew_ok c mine my_rest funded host_cost r1 r3 nc)
+  ∧ res = mk_contract_result (c_hk c) (c_rk c) mine (Sig (c_rk c) (MRev (c_hk c) (c_rk c) mine))
+            (Sig (c_hk c) (MRev (c_hk c) (c_rk c) mine)) cost.
+Proof.
+  unfold client_renew, renew_decide. intros H.
+  destruct r3 as [f|]; destruct r1 as [sum|]; simpl in H;
+    try destruct (rf_resolutions f) as [|[nc rest rs|] [|? ?]] eqn:Hr; simpl in H; peel; try discriminate;
+    boolf; try (exfalso; unfold len in *; cbn [length] in *; lia); simpl in *; try discriminate;
+    try (match goal with H : match Pos.succ ?p with _ => _ end = true |- _ => destruct p; discriminate H end).
+  unfold verify_sig in *. boolf. simplify_eq.
+  match goal with H : co_hsig nc = _ |- _ => rewrite H end.
+  split; [|done]. exists nc. unfold renew_ok. repeat split; try done.
+  - exists sum. split; [done|lia].
+  - exists f, rest. repeat split; done.
+Qed.
+
+(** what the call hands back is the renter's own contract, signed by the host key of the
+    (existing) contract over exactly that contract, at the locally computed cost *)
+Definition contract_bound (hk rk : key) (mine : view croot) (cost : N) (res : contract_result) : Prop :=
+  cr_view res = mine ∧ cr_hk res = hk ∧ cr_rk res = rk
+  ∧ cr_hsig res = Sig hk (MRev (cr_hk res) (cr_rk res) (cr_view res))
+  ∧ cr_rsig res = Sig rk (MRev (cr_hk res) (cr_rk res) (cr_view res))
+  ∧ cr_cost res = cost.
+
+Theorem contract_returned_is_contract_signed :
+  (∀ t hk rk mine my_rest funded host_cost cost r1 r3 res,
+     client_form t hk rk mine my_rest funded host_cost cost r1 r3 = Ok res → contract_bound hk rk mine cost res)
+  ∧ (∀ t c mine my_rest funded host_cost cost r1 r3 res,
+     client_renew t c mine my_rest funded host_cost cost r1 r3 = Ok res →
+     contract_bound (c_hk c) (c_rk c) mine cost res
+     (* and the host also signed the renewal the renter built *)
+     ∧ ∃ f nc rest, r3 = Some f
+         ∧ rf_resolutions f = [ResRenewal nc rest (Sig (c_hk c) (MRenewal (c_hk c) (c_rk c) mine my_rest))]).
+Proof.
+  split.
+  - intros * [_ ->]%form_inv. repeat split.
+  - intros * [[nc (_ & _ & f & rest & ? & _ & ? & _)] ->]%renew_inv. split; [repeat split|]. by exists f, nc, rest.
+Qed.
+
 (** ** C10_revision_signed_and_priced: every revising RPC at once *)
 Theorem revision_signed_and_priced t c p :
   (∀ sp offset length r res roots, client_roots t c sp offset length r = Ok (res, roots) →
@@ -574,14 +645,23 @@ Theorem revision_signed_and_priced t c p :
      contract_signed c →
      signed_by_both c res
      ∧ (charged c res (sum_N (deps.*2)) 0
-        ∨ (sum_N (deps.*2) = 0 ∧ rr_view res = c_view c ∧ rr_usage res = usage0))).
+        ∨ (sum_N (deps.*2) = 0 ∧ rr_view res = c_view c ∧ rr_usage res = usage0)))
+  ∧ (∀ hk rk mine my_rest funded host_cost cost r1 r3 res,
+     client_form t hk rk mine my_rest funded host_cost cost r1 r3 = Ok res → contract_bound hk rk mine cost res)
+  ∧ (∀ mine my_rest funded host_cost cost r1 r3 res,
+     client_renew t c mine my_rest funded host_cost cost r1 r3 = Ok res →
+     contract_bound (c_hk c) (c_rk c) mine cost res).
 Proof.
+  destruct contract_returned_is_contract_signed as [Hform Hrenew].
   split; [intros; by eapply roots_signed_priced|].
   split; [intros; by eapply append_signed_priced|].
   split; [intros; by eapply free_signed_priced|].
   split.
   - intros ???? H. apply fund_signed_priced in H as (?&?&_). done.
-  - intros ?????? H Hc. destruct (replenish_signed_priced _ _ _ _ _ _ _ _ H Hc) as (?&?&_). done.
+  - split; [|split].
+    + intros ?????? H Hc. destruct (replenish_signed_priced _ _ _ _ _ _ _ _ H Hc) as (?&?&_). done.
+    + intros. by eapply Hform.
+    + intros * H. by apply Hrenew in H as [? _].
 Qed.
 
 (** ** C10_else_error: the functions are total and succeed only when every
@@ -631,6 +711,10 @@ Theorem else_error :
   ∧ (∀ t c deposits r, ¬ (∃ v' u fr, fund_ok c deposits r v' u fr) → client_fund t c deposits r = Err)
   ∧ (∀ t c accounts target r1 r3, ¬ (∃ deps, replenish_ok c accounts target r1 r3 deps) →
        client_replenish t c accounts target r1 r3 = Err)
+  ∧ (∀ t hk rk mine my_rest funded host_cost cost r1 r3, ¬ form_ok hk rk mine my_rest funded host_cost r1 r3 →
+       client_form t hk rk mine my_rest funded host_cost cost r1 r3 = Err)
+  ∧ (∀ t c mine my_rest funded host_cost cost r1 r3, ¬ (∃ nc, renew_ok c mine my_rest funded host_cost r1 r3 nc) →
+       client_renew t c mine my_rest funded host_cost cost r1 r3 = Err)
   ∧ (∀ A (r : option A), r = None → client_pass r = Err).
 Proof.
   repeat split.
@@ -648,6 +732,8 @@ Proof.
     apply fund_inv in H as (v' & u & fr & ? & _). by exists v', u, fr.
   - intros t c accounts target r1 r3 Hn. apply not_ok_err. intros [res deps] H. apply Hn.
     apply replenish_inv in H as [? _]. by exists deps.
+  - intros * Hn. apply not_ok_err. intros res H. by apply Hn, (form_inv _ _ _ _ _ _ _ _ _ _ _ H).
+  - intros * Hn. apply not_ok_err. intros res H. by apply Hn, (renew_inv _ _ _ _ _ _ _ _ _ _ H).
   - by intros A r ->.
 Qed.
 
@@ -870,5 +956,42 @@ Section ContractExamples.
   Proof. vm_compute. reflexivity. Qed.
   Example ex_replenish_peer_signature :
     client_replenish 9 c0 [7; 8; 9] 10 (Some [(7, 10); (8, 3); (9, 0)]) (Some (Sig 9 (MRev 1 2 v_repl))) = Err.
+  Proof. vm_compute. reflexivity. Qed.
+  (** forming / renewing: the host's final transaction *)
+  Let mine : view croot := mk_view 0 0 0 (CR []) 150 300 300 1144.
+  Let agreed := mk_contract_obj 1 2 mine (Sig 2 (MRev 1 2 mine)) (Sig 1 (MRev 1 2 mine)).
+  Let cheated : view croot := mk_view 0 0 0 (CR []) 140 310 300 1144.
+  Example ex_form_ok : client_form 9 1 2 mine 77 true 300 451 (Some 300) (Some (mk_form_final 1 [agreed] 77))
+    = Ok (mk_contract_result 1 2 mine (Sig 2 (MRev 1 2 mine)) (Sig 1 (MRev 1 2 mine)) 451).
+  Proof. vm_compute. reflexivity. Qed.
+  Example ex_form_substituted_resigned : client_form 9 1 2 mine 77 true 300 451 (Some 300)
+    (Some (mk_form_final 1 [mk_contract_obj 1 2 cheated (Sig 2 (MRev 1 2 mine)) (Sig 1 (MRev 1 2 cheated))] 77)) = Err.
+  Proof. vm_compute. reflexivity. Qed.
+  Example ex_form_host_underfunds : client_form 9 1 2 mine 77 true 300 451 (Some 299) (Some (mk_form_final 1 [agreed] 77)) = Err.
+  Proof. vm_compute. reflexivity. Qed.
+  Example ex_form_peer_signature : client_form 9 1 2 mine 77 true 300 451 (Some 300)
+    (Some (mk_form_final 1 [mk_contract_obj 1 2 mine (Sig 2 (MRev 1 2 mine)) (Sig 9 (MRev 1 2 mine))] 77)) = Err.
+  Proof. vm_compute. reflexivity. Qed.
+  Let rsig := Sig 1 (MRenewal 1 2 mine 55).
+  Example ex_renew_ok : client_renew 9 c0 mine 55 true 300 451 (Some 300) (Some (mk_renew_final 1 [ResRenewal agreed 55 rsig]))
+    = Ok (mk_contract_result 1 2 mine (Sig 2 (MRev 1 2 mine)) (Sig 1 (MRev 1 2 mine)) 451).
+  Proof. vm_compute. reflexivity. Qed.
+  (* seed f: a substituted contract re-signed by the host, honest renewal signature *)
+  Example ex_renew_substituted_resigned : client_renew 9 c0 mine 55 true 300 451 (Some 300)
+    (Some (mk_renew_final 1 [ResRenewal (mk_contract_obj 1 2 cheated (Sig 2 (MRev 1 2 mine)) (Sig 1 (MRev 1 2 cheated))) 55 rsig])) = Err.
+  Proof. vm_compute. reflexivity. Qed.
+  (* the repaired defect: a substituted contract that keeps the signature over the agreed
+     contract is accepted, but what is returned is the agreed contract *)
+  Example ex_renew_substituted_signature_kept : client_renew 9 c0 mine 55 true 300 451 (Some 300)
+    (Some (mk_renew_final 1 [ResRenewal (mk_contract_obj 1 2 cheated (Sig 2 (MRev 1 2 mine)) (Sig 1 (MRev 1 2 mine))) 55 rsig]))
+    = Ok (mk_contract_result 1 2 mine (Sig 2 (MRev 1 2 mine)) (Sig 1 (MRev 1 2 mine)) 451).
+  Proof. vm_compute. reflexivity. Qed.
+  Example ex_renew_altered_renewal_resigned : client_renew 9 c0 mine 55 true 300 451 (Some 300)
+    (Some (mk_renew_final 1 [ResRenewal agreed 56 (Sig 1 (MRenewal 1 2 mine 56))])) = Err.
+  Proof. vm_compute. reflexivity. Qed.
+  Example ex_renew_expiration_instead : client_renew 9 c0 mine 55 true 300 451 (Some 300) (Some (mk_renew_final 1 [ResOther])) = Err.
+  Proof. vm_compute. reflexivity. Qed.
+  Example ex_renew_peer_signs : client_renew 9 c0 mine 55 true 300 451 (Some 300)
+    (Some (mk_renew_final 1 [ResRenewal (mk_contract_obj 1 2 mine (Sig 2 (MRev 1 2 mine)) (Sig 9 (MRev 1 2 mine))) 55 (Sig 9 (MRenewal 1 2 mine 55))])) = Err.
   Proof. vm_compute. reflexivity. Qed.
 End ContractExamples.
